@@ -600,9 +600,20 @@ func runScenario(d *scripted, dAddr string, cfg *pb.Config, fail func(clause, si
 					fail("fenced_change", "restored-replica-membership-diverges", fmt.Sprintf("the replica started by a restore request ended up at membership version %d while the replicas that kept running are at %d: it accepted a change they refused as stale", vb, va), nil)
 				}
 			}
-			set(B, &pb.NodeHostRequest{Change: &pb.Request{Type: pb.Request_DELETE, ShardId: sid, Members: []uint64{4}, ConfChangeId: stale}, RaftAddress: B.Addr})
-			round(B, false)
-			time.Sleep(600 * time.Millisecond)
+			// (a membership change can be dropped on its way - leader busy with another one, transfer in progress - so the stale
+			// request is delivered up to four times; on a fenced replica none of them can have an effect)
+			for try := 0; try < 4; try++ {
+				set(B, &pb.NodeHostRequest{Change: &pb.Request{Type: pb.Request_DELETE, ShardId: sid, Members: []uint64{4}, ConfChangeId: stale}, RaftAddress: B.Addr})
+				round(B, false)
+				changed := false
+				for i := 0; i < 24 && !changed; i++ {
+					time.Sleep(25 * time.Millisecond)
+					changed = members(B) != "[1 2 4]" || members(A) != "[1 2 4]" || cci(B) != vb || cci(A) != va
+				}
+				if changed {
+					break
+				}
+			}
 			step("stale_change_after_restore")
 			if va != vb {
 				run.Count("c18:inconclusive_scenario")
